@@ -452,7 +452,7 @@ UNSUPPORTED = ["fixed128x18", "ufixed128x18", "function", "fixed", "ufixed8x1"]
 
 
 def shards(tier):
-    n = 170 if tier == "quick" else 3500
+    n = 500 if tier == "quick" else 6000
     return [{"n": n} for _ in range(15)] + [{"unsupported": True}]
 
 
